@@ -189,7 +189,10 @@ pub fn job_c14(out_dir: &str, tier: &str, seed: u64) {
                        ("shift_jis", &b"<a title=\"\x93\xfa\x96\x7b\" x=\x83\x5c y='\xb1'>t</a><b k=\x93\xfa>"[..]),
                        ("gbk", &b"<a t=\"\xd6\xd0\xce\xc4\" \xd6\xd0=1>t</a>"[..]),
                        ("utf-8", &b"<a t=\"\xff\xfe\" u=\xc3 v='ok\xe2\x82'>t</a><i w=\"\xe2\x82\xac\xe2\x82\xac\">"[..]),
-                       ("utf-8", "<a title=\"caf\u{e9} \u{65e5}\u{672c} \u{1F600}\" \u{e9}=1>t</a>".as_bytes())] {
+                       ("utf-8", "<a title=\"caf\u{e9} \u{65e5}\u{672c} \u{1F600}\" \u{e9}=1>t</a>".as_bytes()),
+                       // text nodes that end in a truncated multi-byte character (alone in the node / after text / at the end of input)
+                       ("utf-8", &b"<i>\xF0\x9F</i><p>ab\xE2\x82</p><b>\xC3</b>t\xE2"[..]),
+                       ("shift_jis", &b"<i>\x93</i><p>ab\x93</p>t\x83"[..])] {
         let mut cutsets: Vec<Vec<usize>> = vec![vec![], (1..doc.len()).collect()];
         for c in 1..doc.len() { cutsets.push(vec![c]); }
         run_variants(&mut sh, "c14", &["C14"], &gen::merge(&all, &json!({"strict": false, "enc": enc})), doc, &cutsets, "sim", &mut n);
